@@ -1358,9 +1358,11 @@ func serveQueries(udp bool, envs [][]byte, keys *sessKeys, outEnvs int) (map[uin
 		rec.called++
 		rec.hasTsig = req.IsTsig() != nil
 		rec.status = w.TsigStatus()
+		status := rec.status
 		verified := rec.hasTsig && rec.status == nil
 		mu.Unlock()
-		if len(req.Question) == 1 && req.Question[0].Qtype == dns.TypeAXFR {
+		failed := req.IsTsig() != nil && !verified
+		if len(req.Question) == 1 && req.Question[0].Qtype == dns.TypeAXFR && !failed {
 			ch := make(chan *dns.Envelope)
 			go func() {
 				for i := 0; i < outEnvs; i++ {
@@ -1391,6 +1393,28 @@ func serveQueries(udp bool, envs [][]byte, keys *sessKeys, outEnvs int) (map[uin
 		if verified {
 			t := req.IsTsig()
 			m.SetTsig(t.Hdr.Name, t.Algorithm, t.Fudge, time.Now().Unix())
+		} else if failed {
+			// RFC 8945 5.2.x / 5.3.2: a request whose TSIG does not verify is answered with
+			// NOTAUTH and a TSIG carrying the error: BADTIME (signed: Time Signed of the
+			// request, the server's time in Other Data), BADSIG, BADKEY (both unsigned: the
+			// library leaves the MAC of such a reply empty)
+			t := req.IsTsig()
+			m.Answer = nil
+			m.Rcode = dns.RcodeNotAuth
+			m.SetTsig(t.Hdr.Name, t.Algorithm, t.Fudge, int64(t.TimeSigned))
+			rt := m.IsTsig()
+			switch {
+			case errors.Is(status, dns.ErrTime):
+				rt.Error = dns.RcodeBadTime
+				var ot [8]byte
+				binary.BigEndian.PutUint64(ot[:], uint64(time.Now().Unix()))
+				rt.OtherLen = 6
+				rt.OtherData = hex.EncodeToString(ot[2:])
+			case errors.Is(status, dns.ErrSig):
+				rt.Error = dns.RcodeBadSig
+			default:
+				rt.Error = dns.RcodeBadKey
+			}
 		}
 		w.WriteMsg(m)
 	})
@@ -1537,6 +1561,12 @@ func runServer(r *Rng, udp bool, nq int, provider bool, tm *tamper, k int, quota
 			queueCase(quota, "verify", []string{Hx(e), "", "false", u(now), "0", ks.desc(), hmacTableFor(ks, [][]byte{e}, nil, polStateless)}, errClass(rec.status)) {
 			st["sess_model_verify"]++
 		}
+		if rec.hasTsig && errors.Is(rec.status, dns.ErrTime) {
+			// a request that fails for another reason than its MAC: the handler has answered
+			// with a signed BADTIME reply (RFC 8945 5.2.3), whose MAC covers the MAC of ITS
+			// request (5.3.2) - on UDP, as first and as later request of a TCP connection
+			checkErrorReply(e, id, written, keys, ks, quota, in, Itoa(i)+" ("+posClass(i, nq)+" of "+Itoa(nq)+")")
+		}
 		if !verified || tampered {
 			continue
 		}
@@ -1561,6 +1591,59 @@ func runServer(r *Rng, udp bool, nq int, provider bool, tm *tamper, k int, quota
 				break
 			}
 			prior = clone(t.mac)
+		}
+	}
+}
+
+// argument octets of model cases about error replies when the caller has no quota
+var errReplyQuota = 12000
+
+// checkErrorReply: query e has a TSIG whose MAC is right (checked here without
+// tsig.go) and whose time the server refused; the reply must be signed under the
+// same key with the MAC of e as request MAC.
+func checkErrorReply(e []byte, id uint16, written [][]byte, keys *sessKeys, ks keyStore, quota *int, in func(string) sessIn, which string) {
+	tq, ok := refFindTsig(e)
+	if !ok || !refVerify(e, keys, nil, false, tq.time) {
+		st["sess_server_badtime_with_wrong_mac"]++ // the status is judged by the verdict oracles
+		return
+	}
+	var resp [][]byte
+	for _, w := range written {
+		if len(w) >= 2 && binary.BigEndian.Uint16(w) == id {
+			resp = append(resp, w)
+		}
+	}
+	st["sess_server_badtime_replies_checked"]++
+	if len(resp) != 1 {
+		Viol("C11/Server/error-response-signature", Itoa(len(resp))+" responses to query "+which+", whose MAC is right and whose time is outside the fudge window", in(""))
+		return
+	}
+	w := resp[0]
+	prior := clone(tq.mac)
+	t, ok := refFindTsig(w)
+	switch {
+	case !ok:
+		Viol("C11/Server/error-response-signature", "the BADTIME response to query "+which+" carries no TSIG as last record", in(Hx(w)))
+		return
+	case t.errc != dns.RcodeBadTime || len(t.other) != 6:
+		Viol("C11/Server/error-response-signature", "the response to query "+which+" does not carry the TSIG error BADTIME and the server time the handler put there", in(Hx(w)))
+		return
+	case !refVerify(w, keys, prior, false, t.time):
+		why := "another MAC"
+		if len(t.mac) == 0 {
+			why = "no MAC"
+		} else if refVerify(w, keys, nil, false, t.time) {
+			why = "a MAC computed without any request MAC"
+		}
+		Viol("C11/Server/error-response-signature", "the signed BADTIME response to query "+which+" is not the RFC 8945 MAC over the MAC of its request (it carries "+why+")", in(Hx(w)))
+	}
+	if quota == nil {
+		quota = &errReplyQuota
+	}
+	if allUnpack([][]byte{w}) {
+		got := protectVerify(ks, w, Hx(prior), false, t.time)
+		if tsigClasses[got] && queueCase(quota, "verify", []string{Hx(w), Hx(prior), "false", u(t.time), "0", ks.desc(), hmacTableFor(ks, [][]byte{w}, prior, polStateless)}, got) {
+			st["sess_model_verify_error_reply"]++
 		}
 	}
 }
